@@ -211,11 +211,17 @@ func (d *driver) runPolyCase(w emitter, k int, c *polyCase) {
 		pre := cfg.PrecomputedWeights.ComputeBarycentricCoefficients(zin)
 		w.emit(ev{"ev": "bary_pre", "k": k, "j": c.J, "out": vecReg(pre)})
 		z := pointValue(c.Z, p)
-		for rep := 0; rep < 2; rep++ {
+		for rep := 0; rep < 3; rep++ {
 			b := cfg.PrecomputedWeights.ComputeBarycentricCoefficients(frFromBig(z))
 			f := polyClass(c.F, rep+1, p)
 			ip, _ := ipa.InnerProd(f, b)
 			w.emit(ev{"ev": "bary", "k": k, "cls": c.Z, "z": limbsOfBig(z), "out": vecReg(b), "f": vecReg(f), "fcls": c.F, "ip": frReg(&ip), "full": c.Full && rep == 0})
+			// the returned vector is the caller's: it is used as scratch space here (scaled in place, one entry cleared) before the same
+			// point is evaluated again - a result that shares storage with what an earlier call handed out shows on the next repetition
+			for i := range b {
+				b[i].Double(&b[i])
+			}
+			b[(k+rep)%len(b)].SetZero()
 		}
 	case "tables":
 		bw := ipa.VerifBarycentricWeights(cfg.PrecomputedWeights)
